@@ -887,6 +887,17 @@ std::size_t CppCheck::calculateHash(const Preprocessor& preprocessor, const std:
         toolinfo << a.args;
     }
     toolinfo << mSettings.premiumArgs;
+    toolinfo << (mSettings.certainty.isEnabled(Certainty::inconclusive) ? 'i' : ' ');
+    toolinfo << (mSettings.checks.isEnabled(Checks::unusedFunction) ? 'u' : ' ');
+    toolinfo << (mSettings.checks.isEnabled(Checks::missingInclude) ? 'm' : ' ');
+    for (const std::string &u : mSettings.userUndefs)
+        toolinfo << "-U" << u;
+    for (const std::string &i : mSettings.includePaths)
+        toolinfo << "-I" << i;
+    toolinfo << mSettings.standards.getC() << mSettings.standards.getCPP();
+    toolinfo << mSettings.platform.toString();
+    for (const std::string &l : mSettings.libraries)
+        toolinfo << "-l" << l;
     // TODO: do we need to add more options?
     mSuppressions.nomsg.dump(toolinfo, filePath);
     return preprocessor.calculateHash(toolinfo.str());
